@@ -51,6 +51,10 @@ Fixpoint tok_cmd (c : cmd) : list tok :=
   | CKeyFlag sharp letters => [TKeyFlag (key_flags sharp letters)]
   | CKeyShift k => [TKeyShift k]
   | CTrackKey k => [TTrackKey k]
+  | COnce marks base acc natural len gate vel timing oct =>
+      map TOctaveOnce marks
+      ++ [TNote base acc (if natural then 1 else 0) (plen len) (osent gate 0) (vel_sentinel vel timing oct)
+                (osent timing ISIZE_MIN) (osent oct (-1)) 0]
   end.
 Definition tokens_of (l : list cmd) : list tok := flat_map tok_cmd l.
 (* what lex() returns for a whole source: every (nested) lex call opens with a line-number token *)
@@ -94,6 +98,11 @@ Fixpoint wf_cmd (c : cmd) : bool :=
   | CTuplet items len => all items && olen_wf len
   | CSub body => all body
   | CTrack n => (0 <=? n) && (n <=? 999)
+  | COnce marks base acc natural len gate vel timing oct =>
+      (* marks are back-quote (1) and double quote (-1); the note as for CNote *)
+      forallb (fun k => (k =? 1) || (k =? -1)) marks
+      && (is_base base && olen_wf len && ogate_ok gate && ovel_ok vel && otiming_ok timing && ooct_ok oct
+          && (negb (is_none vel) || (is_none timing && is_none oct)))
   | _ => true
   end.
 Definition wf_prog (l : list cmd) : bool := forallb wf_cmd l.
@@ -121,6 +130,8 @@ Fixpoint lexable_cmd (c : cmd) : bool :=
   | CTuplet items _ => all items
   | CSub body => all body
   | CKeyFlag _ letters => forallb is_base letters
+  | COnce _ base acc _ _ gate vel timing oct =>
+      is_base base && num_ok acc && onum_ok gate && onum_ok vel && onum_ok timing && onum_ok oct
   | _ => true
   end.
 Definition lexable_prog (l : list cmd) : bool := forallb lexable_cmd l.
@@ -156,6 +167,7 @@ Fixpoint flat_cost (c : cmd) : nat :=
   | CLoop n body brk =>
       (1 + Nat.max 1 (Z.to_nat (osent n 2)) * (sum body + (match brk with Some b => sum b | None => O end) + 2))%nat
   | CChord items _ _ _ => (2 + sum items)%nat
+  | COnce marks _ _ _ _ _ _ _ _ => S (length marks)
   | _ => 1%nat
   end.
 Definition flat_cost_l (l : list cmd) : nat := list_sum (map flat_cost l).
